@@ -1,6 +1,6 @@
 (** C04 — lemmas. *)
-From Coq Require Import List Arith NArith ZArith Bool Lia.
-From SV Require Import Common.Trie C04.Model.
+From Coq Require Import List Arith NArith ZArith Bool Lia Permutation.
+From SV Require Import Common.Trie C04.Gen C04.Model.
 Import ListNotations.
 
 Lemma split_last_app c l p s : split_last c l = Some (p, s) -> l = p ++ s.
@@ -10,3 +10,219 @@ Proof.
   - inversion H; subst. cbn. f_equal. apply IH; reflexivity.
   - destruct (N.eqb x c); inversion H; subst; reflexivity.
 Qed.
+
+Lemma beq_eq a b : beq a b = true <-> a = b.
+Proof.
+  revert b; induction a as [|x a IH]; destruct b as [|y b]; cbn [beq]; try (split; congruence).
+  rewrite andb_true_iff, N.eqb_eq, IH. split; [intros [-> ->]; reflexivity | intros H; inversion H; auto].
+Qed.
+Lemma beq_refl a : beq a a = true.
+Proof. apply beq_eq; reflexivity. Qed.
+Lemma beq_neq a b : beq a b = false <-> a <> b.
+Proof. rewrite <- beq_eq. destruct (beq a b); split; congruence. Qed.
+
+(** the constants read from the source are the ones the proofs need *)
+Lemma gen_arms : path_eq_arm_prefix = true /\ path_eq_arm_regex = true /\ path_eq_arm_equals = true.
+Proof. repeat split; reflexivity. Qed.
+Lemma gen_ranks :
+  (rank_prefix < rank_regex)%nat /\ (rank_regex < rank_equals)%nat /\ (mrank_all < mrank_equals)%nat.
+Proof. cbv. repeat split; repeat constructor. Qed.
+
+(** ** rule identity *)
+Lemma prule_eqb_eq a b : prule_eqb a b = true <-> a = b.
+Proof.
+  destruct gen_arms as (A1 & A2 & A3).
+  destruct a as [ka va], b as [kb vb]; unfold prule_eqb; cbn [p_kind p_val].
+  rewrite A1, A2, A3.
+  destruct ka, kb; cbn [andb]; rewrite ?beq_eq; split; intros H; try congruence; try discriminate;
+    try (inversion H; reflexivity).
+Qed.
+Lemma mrule_eqb_eq a b : mrule_eqb a b = true <-> a = b.
+Proof.
+  destruct a, b; cbn [mrule_eqb]; rewrite ?beq_eq; split; intros H; try congruence; try discriminate;
+    try (inversion H; reflexivity).
+Qed.
+Lemma drule_eqb_eq a b : drule_eqb a b = true <-> a = b.
+Proof.
+  destruct a, b; cbn [drule_eqb]; rewrite ?beq_eq; split; intros H; try congruence; try discriminate;
+    try (inversion H; reflexivity); try reflexivity.
+Qed.
+
+(** ** ranks *)
+Definition rank_lt (a b : rank) : Prop :=
+  let '(a1, a2, a3) := a in let '(b1, b2, b3) := b in
+  (a1 < b1 \/ (a1 = b1 /\ (a2 < b2 \/ (a2 = b2 /\ a3 < b3))))%nat.
+
+Lemma rank_ltb_lt a b : rank_ltb a b = true <-> rank_lt a b.
+Proof.
+  destruct a as [[a1 a2] a3], b as [[b1 b2] b3]; unfold rank_ltb, rank_lt.
+  rewrite !orb_true_iff, !andb_true_iff, !orb_true_iff, !andb_true_iff, !Nat.ltb_lt, !Nat.eqb_eq. tauto.
+Qed.
+Lemma rank_lt_irrefl a : ~ rank_lt a a.
+Proof. destruct a as [[a1 a2] a3]; unfold rank_lt; lia. Qed.
+Lemma rank_lt_trans a b c : rank_lt a b -> rank_lt b c -> rank_lt a c.
+Proof. destruct a as [[a1 a2] a3], b as [[b1 b2] b3], c as [[c1 c2] c3]; unfold rank_lt; lia. Qed.
+Lemma rank_trich a b : ~ rank_lt a b -> ~ rank_lt b a -> a = b.
+Proof.
+  destruct a as [[a1 a2] a3], b as [[b1 b2] b3]; unfold rank_lt; intros H1 H2.
+  assert (a1 = b1) by lia. assert (a2 = b2) by lia. assert (a3 = b3) by lia. subst; reflexivity.
+Qed.
+Lemma rank_nlt_trans a b c : ~ rank_lt a b -> ~ rank_lt b c -> ~ rank_lt a c.
+Proof. destruct a as [[a1 a2] a3], b as [[b1 b2] b3], c as [[c1 c2] c3]; unfold rank_lt; lia. Qed.
+
+Section Sel.
+  Variable re_match : bytes -> bytes -> bool.
+  Variables (path m : bytes).
+
+  Definition rr (e : prule * mrule * route) : option rank :=
+    let '(p, mr, _) := e in rule_rank re_match p mr path m.
+  Definition rt_of (e : prule * mrule * route) : route := let '(_, _, r) := e in r.
+
+  (** The documented choice, stated on membership only: the answer is a
+      matching rule of maximal rank [(kind, prefix length, method)]. *)
+  Definition is_best (rules : leafv) (o : option route) : Prop :=
+    match o with
+    | None => forall e, In e rules -> rr e = None
+    | Some r => exists e rk, In e rules /\ rt_of e = r /\ rr e = Some rk /\
+                             forall e' rk', In e' rules -> rr e' = Some rk' -> ~ rank_lt rk rk'
+    end.
+
+  Definition sel_inv (seen : leafv) (best : rank) (matched : option route) : Prop :=
+    match matched with
+    | None => forall e, In e seen -> rr e = None
+    | Some r => exists e, In e seen /\ rt_of e = r /\ rr e = Some best /\
+                          forall e' rk', In e' seen -> rr e' = Some rk' -> ~ rank_lt best rk'
+    end.
+
+  Lemma select_gen rules : forall seen best matched,
+      sel_inv seen best matched ->
+      is_best (seen ++ rules) (select_loop re_match rules path m best matched).
+  Proof.
+    induction rules as [|[[p mr] r] rest IH]; intros seen best matched Inv; cbn [select_loop].
+    - rewrite app_nil_r. destruct matched as [r0|]; cbn [sel_inv is_best] in *; [|exact Inv].
+      destruct Inv as (e & He & Hr & Hk & Hmax). exists e, best. auto.
+    - replace (seen ++ (p, mr, r) :: rest) with ((seen ++ [(p, mr, r)]) ++ rest)
+        by (rewrite <- app_assoc; reflexivity).
+      destruct (rule_rank re_match p mr path m) as [rk|] eqn:Erk.
+      + destruct (negb (is_some matched) || rank_ltb best rk) eqn:Ec.
+        * apply IH. cbn [sel_inv]. exists (p, mr, r). repeat split.
+          -- apply in_or_app; right; left; reflexivity.
+          -- exact Erk.
+          -- intros e' rk' Hin Hrk'. apply in_app_or in Hin. destruct Hin as [Hin|[<-|[]]].
+             ++ destruct matched as [r0|]; cbn [sel_inv] in Inv.
+                ** destruct Inv as (e & He & Hr & Hk & Hmax).
+                   cbn [is_some negb orb] in Ec. apply rank_ltb_lt in Ec.
+                   intros Hlt. apply (Hmax e' rk' Hin Hrk'). eapply rank_lt_trans; eauto.
+                ** rewrite (Inv e' Hin) in Hrk'. discriminate.
+             ++ cbn [rr] in Hrk'. rewrite Erk in Hrk'. inversion Hrk'; subst. apply rank_lt_irrefl.
+        * apply IH. apply orb_false_iff in Ec. destruct Ec as [Ec1 Ec2].
+          destruct matched as [r0|]; [|discriminate]. cbn [sel_inv] in *.
+          destruct Inv as (e & He & Hr & Hk & Hmax). exists e. repeat split; auto.
+          -- apply in_or_app; left; exact He.
+          -- intros e' rk' Hin Hrk'. apply in_app_or in Hin. destruct Hin as [Hin|[<-|[]]].
+             ++ eauto.
+             ++ cbn [rr] in Hrk'. rewrite Erk in Hrk'. inversion Hrk'; subst.
+                intros Hlt. apply rank_ltb_lt in Hlt. congruence.
+      + apply IH. destruct matched as [r0|]; cbn [sel_inv] in *.
+        * destruct Inv as (e & He & Hr & Hk & Hmax). exists e. repeat split; auto.
+          -- apply in_or_app; left; exact He.
+          -- intros e' rk' Hin Hrk'. apply in_app_or in Hin. destruct Hin as [Hin|[<-|[]]]; eauto.
+             cbn [rr] in Hrk'. congruence.
+        * intros e Hin. apply in_app_or in Hin. destruct Hin as [Hin|[<-|[]]]; auto.
+  Qed.
+
+  Lemma select_is_best rules :
+    is_best rules (select_loop re_match rules path m (0, 0, 0)%nat None).
+  Proof. apply (select_gen rules [] (0, 0, 0)%nat None). intros e []. Qed.
+
+  (** no two matching rules of the same rank that decide differently *)
+  Definition no_ties (rules : leafv) : Prop :=
+    forall e1 e2 rk, In e1 rules -> In e2 rules -> rr e1 = Some rk -> rr e2 = Some rk -> rt_of e1 = rt_of e2.
+
+  Lemma is_best_unique rules o1 o2 :
+    no_ties rules -> is_best rules o1 -> is_best rules o2 -> o1 = o2.
+  Proof.
+    intros NT H1 H2. destruct o1 as [r1|], o2 as [r2|]; cbn [is_best] in *; auto.
+    - destruct H1 as (e1 & k1 & I1 & R1 & K1 & M1), H2 as (e2 & k2 & I2 & R2 & K2 & M2).
+      assert (k1 = k2) by (apply rank_trich; eauto). subst k2.
+      f_equal. rewrite <- R1, <- R2. eapply NT; eauto.
+    - destruct H1 as (e1 & k1 & I1 & R1 & K1 & M1). rewrite (H2 e1 I1) in K1. discriminate.
+    - destruct H2 as (e2 & k2 & I2 & R2 & K2 & M2). rewrite (H1 e2 I2) in K2. discriminate.
+  Qed.
+
+  Lemma is_best_ext rules rules' o :
+    (forall e, In e rules <-> In e rules') -> is_best rules o -> is_best rules' o.
+  Proof.
+    intros E H. destruct o as [r|]; cbn [is_best] in *.
+    - destruct H as (e & k & I & R & K & M). exists e, k. repeat split; auto.
+      + apply E; exact I.
+      + intros e' rk' I'. apply M. apply E; exact I'.
+    - intros e I. apply H. apply E; exact I.
+  Qed.
+
+  Lemma select_order_independent rules rules' :
+    (forall e, In e rules <-> In e rules') -> no_ties rules ->
+    select_loop re_match rules path m (0, 0, 0)%nat None = select_loop re_match rules' path m (0, 0, 0)%nat None.
+  Proof.
+    intros E NT. apply (is_best_unique rules); auto.
+    - apply select_is_best.
+    - apply (is_best_ext rules'); [intros e; symmetry; apply E|]. apply select_is_best.
+  Qed.
+
+  (** ties only arise between two REGEX rules (documented as undefined) *)
+  Lemma starts_with_same p q l :
+    starts_with p l = true -> starts_with q l = true -> length p = length q -> p = q.
+  Proof.
+    revert q l; induction p as [|x p IH]; destruct q as [|y q]; cbn [length]; intros l H1 H2 HL; try discriminate; auto.
+    destruct l as [|z l]; cbn [starts_with] in *; [discriminate|].
+    apply andb_true_iff in H1, H2. destruct H1 as [E1 H1], H2 as [E2 H2].
+    apply N.eqb_eq in E1, E2. subst. f_equal. eapply IH; eauto.
+  Qed.
+
+  Lemma rule_rank_inv p mr rk :
+    rule_rank re_match p mr path m = Some rk ->
+    exists k s mm, rk = (k, s, mm) /\
+      ((p_kind p = PPrefix /\ starts_with (p_val p) path = true /\ k = rank_prefix /\ s = length (p_val p)) \/
+       (p_kind p = PRegex /\ k = rank_regex /\ s = 0%nat) \/
+       (p_kind p = PEquals /\ path = p_val p /\ k = rank_equals /\ s = 0%nat)) /\
+      ((mr = None /\ mm = mrank_all) \/ (mr = Some m /\ mm = mrank_equals)).
+  Proof.
+    unfold rule_rank, prule_matches, mrule_matches. intros H.
+    destruct (p_kind p) eqn:EK.
+    - destruct (starts_with (p_val p) path) eqn:ES; [|discriminate].
+      destruct mr as [x|].
+      + destruct (beq m x) eqn:EM; [|discriminate]. apply beq_eq in EM; subst x.
+        inversion H; subst. do 3 eexists. split; [reflexivity|]. split; [left; auto|right; auto].
+      + inversion H; subst. do 3 eexists. split; [reflexivity|]. split; [left; auto|left; auto].
+    - destruct (re_match (p_val p) path) eqn:ES; [|discriminate].
+      destruct mr as [x|].
+      + destruct (beq m x) eqn:EM; [|discriminate]. apply beq_eq in EM; subst x.
+        inversion H; subst. do 3 eexists. split; [reflexivity|]. split; [right; left; auto|right; auto].
+      + inversion H; subst. do 3 eexists. split; [reflexivity|]. split; [right; left; auto|left; auto].
+    - destruct (beq path (p_val p)) eqn:ES; [|discriminate]. apply beq_eq in ES.
+      destruct mr as [x|].
+      + destruct (beq m x) eqn:EM; [|discriminate]. apply beq_eq in EM; subst x.
+        inversion H; subst. do 3 eexists. split; [reflexivity|]. split; [right; right; auto|right; auto].
+      + inversion H; subst. do 3 eexists. split; [reflexivity|]. split; [right; right; auto|left; auto].
+  Qed.
+
+  Lemma tie_only_regex p1 m1 p2 m2 rk :
+    rule_rank re_match p1 m1 path m = Some rk -> rule_rank re_match p2 m2 path m = Some rk ->
+    (p1, m1) <> (p2, m2) -> p_kind p1 = PRegex /\ p_kind p2 = PRegex.
+  Proof.
+    destruct gen_ranks as (G1 & G2 & G3).
+    intros H1 H2 NE.
+    apply rule_rank_inv in H1, H2.
+    destruct H1 as (k1 & s1 & mm1 & -> & P1 & M1), H2 as (k2 & s2 & mm2 & E & P2 & M2).
+    inversion E; subst k2 s2 mm2; clear E.
+    assert (EM : m1 = m2).
+    { destruct M1 as [[-> A]|[-> A]], M2 as [[-> B]|[-> B]]; auto; exfalso; lia. }
+    subst m2.
+    destruct p1 as [kd1 v1], p2 as [kd2 v2]; cbn [p_kind p_val] in *.
+    destruct P1 as [(K1 & S1 & A1 & L1)|[(K1 & A1 & L1)|(K1 & S1 & A1 & L1)]],
+             P2 as [(K2 & S2 & A2 & L2)|[(K2 & A2 & L2)|(K2 & S2 & A2 & L2)]];
+      subst kd1 kd2; auto; try (exfalso; lia).
+    - exfalso. apply NE. f_equal. f_equal. eapply starts_with_same; eauto. lia.
+    - exfalso. apply NE. f_equal. f_equal. congruence.
+  Qed.
+End Sel.
